@@ -345,7 +345,10 @@ class Server:
     def _wait_for_result(self, fut: concurrent.futures.Future):
         # This method is thread-safe.
         try:
-            return fut.result(timeout=fut.data['deadline'] - perf_counter())
+            if fut.exception(timeout=fut.data['deadline'] - perf_counter()) is not None:
+                # `Future.result` tests the exception by its truth value.
+                raise fut.exception()
+            return fut.result()
             # If timeout is negative, it doesn't wait.
             # This may raise an exception originating from RemoteException
         except concurrent.futures.TimeoutError as e:
